@@ -1,7 +1,7 @@
 """C16 - MMR index arithmetic matches the explicit forest of perfect trees."""
 ID = "C16"
 GEN_TAGS = ["MmrIndexGen"]
-PROOF_TARGETS = ["proofs/MmrIndexBits.vo", "proofs/MmrIndexProofs.vo", "proofs/MmrIndexLoops.vo"]
+PROOF_TARGETS = ["proofs/MmrIndexBits.vo", "proofs/MmrIndexProofs.vo", "proofs/MmrIndexLoops.vo", "proofs/MmrIndexMain.vo"]
 PROPS_FILE = "props/C16.v"
 EXTRACT = "extract/ExtractC16.vo"
 ORACLE = ("gen_c16", "c16.ml")
